@@ -73,6 +73,11 @@ func (p *Parser) ParsePackages(ctx context.Context, packageNames []string) ([]*c
 				ifaceLog := fileLog.With().Str("interface", declaredInterface).Logger()
 
 				obj := scope.Lookup(declaredInterface)
+				if obj == nil {
+					// e.g. the blank identifier: `type _ interface{ ... }`
+					ifaceLog.Debug().Msg("name is not declared in the package scope, skipping")
+					continue
+				}
 
 				typ, ok := obj.Type().(*types.Named)
 				if !ok {
